@@ -37,7 +37,7 @@ def replay(ctx, rs, kind="bind", envs=(None,), name="bind", extra=()):
     return sums
 
 
-FAM_PARTS = {"bounds": 1, "leaf": 1, "wrap1": 8, "st1": 16, "st1l": 2, "st1w": 14, "st2": 4, "emb": 1, "opts": 1, "mapkeys": 1, "bigst": 1, "rec": 1, "deepst": 1, "wrap2": 32}
+FAM_PARTS = {"bounds": 1, "ifptr": 1, "leaf": 1, "wrap1": 8, "st1": 16, "st1l": 2, "st1w": 14, "st2": 4, "emb": 1, "opts": 1, "mapkeys": 1, "bigst": 1, "rec": 1, "deepst": 1, "wrap2": 32}
 
 
 def plan_for(ctx, fams):
@@ -46,7 +46,7 @@ def plan_for(ctx, fams):
     for fam in fams:
         n = FAM_PARTS[fam]
         if ctx.quick:
-            q = {"bounds": 1, "leaf": 1, "wrap1": 8, "st1": 32, "st1l": 1, "st1w": 32, "st2": 8, "emb": 1, "opts": 1, "mapkeys": 1, "bigst": 1, "rec": 1, "deepst": 1, "wrap2": 64}[fam]
+            q = {"bounds": 1, "ifptr": 1, "leaf": 1, "wrap1": 8, "st1": 32, "st1l": 1, "st1w": 32, "st2": 8, "emb": 1, "opts": 1, "mapkeys": 1, "bigst": 1, "rec": 1, "deepst": 1, "wrap2": 64}[fam]
             plan.append((fam, int(ctx.seed) % q, q))
         else:
             plan += [(fam, p, n) for p in range(n)]
